@@ -206,9 +206,30 @@ fn guarded_check<P: Prop>(
     lane: usize,
     st: &mut Stats,
 ) -> Result<Result<(), Fail>, String> {
+    crate::hsys::LAST_PANIC_LOC.with(|l| l.borrow_mut().clear());
     match catch_unwind(AssertUnwindSafe(|| p.check(case, lane, st))) {
         Ok(r) => Ok(r),
-        Err(e) => Err(crate::build::panic_msg(&e)),
+        Err(e) => {
+            // a panic that escaped the oracle: raised by the library (or a crate it builds on) it
+            // is a finding about the code under test, raised by the harness it is a harness bug
+            let msg = crate::build::panic_msg(&e);
+            let loc = crate::hsys::LAST_PANIC_LOC.with(|l| l.borrow().clone());
+            let library = loc.starts_with("/repo/")
+                || ["/arrayvec-", "/atomic_refcell-", "/smallvec-", "/ahash-"]
+                    .iter()
+                    .any(|c| loc.contains(c));
+            if library {
+                Ok(Err(Fail::keyed(
+                    "library-panic",
+                    format!(
+                        "the library panicked where the property allows no panic: {} (at {})",
+                        msg, loc
+                    ),
+                )))
+            } else {
+                Err(format!("{} (at {})", msg, loc))
+            }
+        }
     }
 }
 
